@@ -964,18 +964,21 @@ fn connect_case(
     if ver == 4 {
         b_line(out, ver, pw, 0x10, &desc, || {
             let mut b = v3::Connect::builder();
-            if let Some(c) = cs { b = b.clean_session(c); }
+            let clean_last = ka.map(|k| k % 2 == 1).unwrap_or(false);
+            if let (Some(c), false) = (cs, clean_last) { b = b.clean_session(c); }
             if let Some(c) = &cid { b = b.client_id(c.as_str())?; }
             if let Some((t, p, q, r)) = &will { b = b.will_message(t.as_str(), p.clone(), qos(*q), *r)?; }
             if let Some(u) = &user { b = b.user_name(u.as_str())?; }
             if let Some(p) = &pass { b = b.password(p.clone())?; }
             if let Some(k) = ka { b = b.keep_alive(k); }
+            if let (Some(c), true) = (cs, clean_last) { b = b.clean_session(c); }
             b.build()
         }, |_, body| v3::Connect::parse(body))
     } else {
         b_line(out, ver, pw, 0x10, &desc, || {
             let mut b = v5::Connect::builder();
-            if let Some(c) = cs { b = b.clean_start(c); }
+            let clean_last = ka.map(|k| k % 2 == 1).unwrap_or(false);
+            if let (Some(c), false) = (cs, clean_last) { b = b.clean_start(c); }
             if let Some(c) = &cid { b = b.client_id(c.as_str())?; }
             if let Some((t, p, q, r)) = &will { b = b.will_message(t.as_str(), p.clone(), qos(*q), *r)?; }
             if let Some(u) = &user { b = b.user_name(u.as_str())?; }
@@ -983,8 +986,29 @@ fn connect_case(
             if let Some(k) = ka { b = b.keep_alive(k); }
             if let Some(p) = &props { b = b.props(p.clone()); }
             if let Some(p) = &wprops { b = b.will_props(p.clone()); }
+            if let (Some(c), true) = (cs, clean_last) { b = b.clean_start(c); }
             b.build()
         }, |_, body| v5::Connect::parse(body))
+    }
+}
+
+/// the payload as the application may hand it over: an owned buffer, or a zero-copy view
+/// (`ArcPayload::new(shared, start, length)`) that is a prefix / an inner part of a larger buffer
+fn payload_view(p: &[u8]) -> mqtt_protocol_core::mqtt::common::ArcPayload {
+    use mqtt_protocol_core::mqtt::common::{ArcPayload, IntoPayload};
+    match p.len() % 3 {
+        1 => {
+            let mut buf = p.to_vec();
+            buf.extend_from_slice(&[0xEE; 5]);
+            ArcPayload::new(Arc::from(buf.into_boxed_slice()), 0, p.len())
+        }
+        2 => {
+            let mut buf = vec![0xDD; 3];
+            buf.extend_from_slice(p);
+            buf.extend_from_slice(&[0xEE; 4]);
+            ArcPayload::new(Arc::from(buf.into_boxed_slice()), 3, p.len())
+        }
+        _ => p.to_vec().into_payload(),
     }
 }
 
@@ -1016,7 +1040,7 @@ fn publish_case(
                 if let Some(d) = dup { b = b.dup(d); }
                 if let Some(r) = retain { b = b.retain(r); }
                 if let Some(i) = pid { b = b.packet_id(i as T); }
-                if let Some(p) = &payload { b = b.payload(p.clone()); }
+                if let Some(p) = &payload { b = b.payload(payload_view(p)); }
                 b.build()
             }, |f, body| v3::GenericPublish::<T>::parse(f, Arc::from(body)))
         } else {
@@ -1027,7 +1051,7 @@ fn publish_case(
                 if let Some(d) = dup { b = b.dup(d); }
                 if let Some(r) = retain { b = b.retain(r); }
                 if let Some(i) = pid { b = b.packet_id(i as T); }
-                if let Some(p) = &payload { b = b.payload(p.clone()); }
+                if let Some(p) = &payload { b = b.payload(payload_view(p)); }
                 if let Some(p) = &props { b = b.props(p.clone()); }
                 b.build()
             }, |f, body| v5::GenericPublish::<T>::parse(f, Arc::from(body)))
